@@ -164,6 +164,28 @@ Example C18_examples :
    judge_1801 ds 0 0 [123; 34; 97; 34; 58; 34; 120; 34; 125] [(1, []); (1, []); (1, [])] (0, [0]) = VBad 3 []).
 Proof. vm_compute. repeat split; reflexivity. Qed.
 
+(* ================================================================== (G) the portable quoteString from the Go source *)
+(* the two per-character steps of internal/json/api_compat.go quoteString (gen/Gen_jsonportable.v; the file is excluded from amd64 builds
+   and parsed as for arm64) against the reference escaping: ASCII bytes exactly as Json.esc_byte (= what the native encoder emits),
+   U+2028 / U+2029 as six-character escapes (the one place where the portable spelling differs from the native one) *)
+From DG Require Gen_rt Gen_jsonportable Check20g GenJsonProofs.
+
+Theorem C18_quoteString_ascii_from_source :
+  forall e s start i b, 0 <= b < 128 -> 0 <= i < 2 ^ 62 ->
+  Gen_jsonportable.quoteString_ascii e s start i b =
+    if CaseFormat.bytes_eqb (Json.esc_byte b) [b] then (Gen_jsonportable.Out_continue, i + 1, e, start)
+    else (Gen_jsonportable.Out_continue, i + 1, GenJsonProofs.pending e s start i ++ Json.esc_byte b, i + 1).
+Proof. exact GenJsonProofs.quoteString_ascii_is_esc_byte. Qed.
+Print Assumptions C18_quoteString_ascii_from_source.
+
+Theorem C18_quoteString_linesep_from_source :
+  forall e s start i c, c = 8232 \/ c = 8233 -> 0 <= i < 2 ^ 62 ->
+  Gen_jsonportable.quoteString_linesep e s start i c 3 =
+    (Gen_jsonportable.Out_continue, GenJsonProofs.pending e s start i ++ [92; 117; 50; 48; 50; Json.hex_digit (c mod 16)], i + 3, i + 3).
+Proof. exact GenJsonProofs.quoteString_linesep_spec. Qed.
+Print Assumptions C18_quoteString_linesep_from_source.
+
+(* ================================================================= dec2f64 / dec2f32 are correctly rounded (proved) ===========
    The number reader every float comparison of C03 / C08 / C13 / C18 judges the implementation's lexemes with is no longer a
    trusted definition: for EVERY decimal (sign, mantissa, power of ten) its result satisfies the decidable specification
    f64_rounds_to / f32_rounds_to (round to nearest, ties to the even pattern, subnormals, overflow to the infinity pattern, zero
@@ -230,26 +252,3 @@ Theorem C18_pattern_values_increase : forall p emin, 2 <= p -> forall b, 0 <= b 
   FpRound.Wb p emin (b + 1) = FpRound.Wb p emin b + FpRound.Gb p emin b /\ 0 < FpRound.Gb p emin b.
 Proof. intros p emin Hp b Hb. split; [apply FpRound.Wb_succ | apply FpRound.Gb_pos]; assumption. Qed.
 Print Assumptions C18_pattern_values_increase.
-=======
-(* ================================================================== (G) the portable quoteString from the Go source *)
-(* the two per-character steps of internal/json/api_compat.go quoteString (gen/Gen_jsonportable.v; the file is excluded from amd64 builds
-   and parsed as for arm64) against the reference escaping: ASCII bytes exactly as Json.esc_byte (= what the native encoder emits),
-   U+2028 / U+2029 as six-character escapes (the one place where the portable spelling differs from the native one) *)
-From DG Require Gen_rt Gen_jsonportable Check20g GenJsonProofs.
-
-Theorem C18_quoteString_ascii_from_source :
-  forall e s start i b, 0 <= b < 128 -> 0 <= i < 2 ^ 62 ->
-  Gen_jsonportable.quoteString_ascii e s start i b =
-    if CaseFormat.bytes_eqb (Json.esc_byte b) [b] then (Gen_jsonportable.Out_continue, i + 1, e, start)
-    else (Gen_jsonportable.Out_continue, i + 1, GenJsonProofs.pending e s start i ++ Json.esc_byte b, i + 1).
-Proof. exact GenJsonProofs.quoteString_ascii_is_esc_byte. Qed.
-Print Assumptions C18_quoteString_ascii_from_source.
-
-Theorem C18_quoteString_linesep_from_source :
-  forall e s start i c, c = 8232 \/ c = 8233 -> 0 <= i < 2 ^ 62 ->
-  Gen_jsonportable.quoteString_linesep e s start i c 3 =
-    (Gen_jsonportable.Out_continue, GenJsonProofs.pending e s start i ++ [92; 117; 50; 48; 50; Json.hex_digit (c mod 16)], i + 3, i + 3).
-Proof. exact GenJsonProofs.quoteString_linesep_spec. Qed.
-Print Assumptions C18_quoteString_linesep_from_source.
-
-(* ================================================================= dec2f64 / dec2f32 are correctly rounded (proved) ====
